@@ -23,6 +23,7 @@ class Broker:
         self.buf = b""
         self.seen = []          # decoded client packets in order
         self.arrivals = list(arrivals or [])
+        self.bprops = 0
         self.mid = 100
         self.raw_ws = b""
         w.tx_hook = self.on_tx
@@ -65,7 +66,13 @@ class Broker:
         while self.arrivals:
             topic, payload, qos, retain = self.arrivals.pop(0)
             self.mid += 1
-            self.send(sock, wire.enc_publish(self.proto, topic, payload, qos=qos, retain=retain, mid=self.mid))
+            # MQTT 5: the messages carry property blocks of 0, ~20 and >= 128 bytes in turn (the length prefix of the block
+            # then takes two bytes; what the helper returns must not depend on it)
+            props = None
+            if self.proto == 5 and self.bprops:
+                k = (self.mid + self.bprops) % 3
+                props = [] if k == 0 else [(38, (b"trace", b"x" * (10 if k == 1 else 150)))] + ([(3, b"text/plain")] if k == 2 else [])
+            self.send(sock, wire.enc_publish(self.proto, topic, payload, qos=qos, retain=retain, mid=self.mid, props=props))
             if qos == 2:
                 return
 
@@ -174,6 +181,7 @@ def run_simple(a):
     w.max_select = 3000
     arrivals = parse_msgs(a.get("arrivals", ""))
     br = Broker(w, proto, ws, arrivals)
+    br.bprops = int(a.get("bprops", 0))
     count = int(a.get("count", 1))
     retained = a.get("retained") == "1"
     kwargs = dict(hostname="broker", port=1883, client_id="cid", protocol=pc.MQTTv5 if proto == 5 else pc.MQTTv311,
@@ -246,7 +254,7 @@ class HelpersStream:
                 # make sure enough non-retained messages exist when retained messages are ignored
                 if not retained:
                     arr += [f"{hx(b't/z')}:{hx(b'k')}:{rng.choice([0, 1])}:0" for _ in range(count)]
-                case.append(f"simple proto={proto} transport={tr} count={count} retained={retained} arrivals={','.join(arr)}")
+                case.append(f"simple proto={proto} transport={tr} count={count} retained={retained} bprops={rng.choice([0, 1, 2, 3]) if proto == 5 else 0} arrivals={','.join(arr)}")
         return case
 
     def real(self, case):
